@@ -26,6 +26,14 @@ PROPS["C03"]["level_text"] += " " + (
     "saved_dist_cache_ slots): NO condition on the decoder's ring or history is left (catable_init_ring_free). "
     "catable_fast_bits_position_independent / catable_trivial_bits_position_independent: the BITS BrotliStoreMetaBlockFast "
     "/ Trivial emit (quality 2 / 3) are read by the RFC reader from the foreign state to h' ++ hist ++ block. "
+    "catable_full_bits_position_independent (quality 4-9): for a block behind at least two member bytes (the stored "
+    "prelude: behind it prev_byte/prev_byte2 and every literal context id are the same whatever precedes the member - "
+    "litSymsOf_prefix), the bits BrotliStoreMetaBlock (storeMetaBlockFull: block splits, context maps, literal context "
+    "modelling) emits with ANY well-formed MetaBlockSplit covering the emitted symbols (MBOK/Covers; for the greedy "
+    "builder that is C01Greedy's greedy_split_wellformed) are read by the GENERAL RFC reader from the foreign state to "
+    "h' ++ hist ++ block; the writers' command hypotheses are all discharged: cmdOK, lockstep, faithful "
+    "(catable_block_faithful via faithful_of_final) and copy_len() >= 2 (catable_copylen2: with the dictionary off every "
+    "sound match at a position with >= 4 bytes left is an LZ77 match of length >= 2). "
     "Necessity: dictionary_reference_is_position_dependent and default_cache_is_position_dependent are concrete "
     "counterexamples when the dictionary is on / the cache is the default [4,11,15,16]. On the real code the same "
     "statement is judged by stage `hasher catable`: members cut into blocks, BrotliCreateBackwardReferences on every "
@@ -37,14 +45,15 @@ PROPS["C03"]["level_text"] += " " + (
 PROPS["C03"]["level_note"] = PROPS["C03"]["level_note"].replace(
     "Partial: CatableBody (position independence of compressed meta-blocks) is an assumption about the encoder core;",
     "Partial: CatableBody (position independence of compressed meta-blocks) is proved at the COMMAND level for quality "
-    "2-9 and at the bit level for quality 2-3 (BV.Props.C03Catable, relative to the C01 chain's hypotheses); for the "
-    "entropy-coded bits of quality 4-9, for quality 0/1 and 10/11 it remains an assumption about the encoder core;"
+    "2-9, at the bit level for quality 2-3 and, relative to a well-formed MetaBlockSplit (MBOK/Covers), at the bit level "
+    "for the quality 4-9 writer BrotliStoreMetaBlock (BV.Props.C03Catable, relative to the C01 chain's hypotheses); for "
+    "quality 0/1 and 10/11 it remains an assumption about the encoder core;"
 ) + " " + (
     "C03Catable scope: NPOSTFIX = NDIRECT = 0; one CreateBackwardReferences call per meta-block; the chain's BlockOK (the "
-    "ring buffer holds the member's text) and OpsOK; lgwin <= 30. Not covered: the literal-context reason for storing the "
-    "first two bytes (it concerns the entropy coder of quality >= 4, whose writers are C01MetaBlockFull's wmbi theorems "
-    "whose command hypotheses cmdOK/lockstep/faithful are delivered here for the foreign state (catable_block_faithful; "
-    "copy_len() >= 2 is not exported by the chain) - the composition line is not written); "
+    "ring buffer holds the member's text) and OpsOK; lgwin <= 30. The quality 4-9 statement takes the MetaBlockSplit as "
+    "given (MBOK/Covers; BrotliOptimizeHistograms and the quality 10/11 splitter are not covered) and is about one "
+    "meta-block written by storeMetaBlockFull, not about WriteMetaBlockInternal's stored fallback (wmbi_full_roundtrip "
+    "composes the same way). Not covered: "
     "re-reading a compressed meta-block at a different BIT offset after the concatenator's shift (concat_bits gives the "
     "bit string; the RFC reader of C01MetaBlock takes the offset only for stored blocks' alignment, not proved "
     "offset-independent); quality 0/1 (fragment compressors: own last-distance state, no dictionary) and 10/11 "
@@ -65,8 +74,8 @@ PROPS["C03"]["rule"] += " " + (
 PROPS["C03"]["assumptions"] = [
     ("'decodes to the concatenation' additionally relies on the payload encoder's catable promise (distance cache "
      "poisoned, static dictionary off, first two bytes stored): PROVED at the command level for quality 2-9 and at the bit "
-     "level for quality 2-3 (BV.Props.C03Catable: catable_member_from_init, catable_*_bits_position_independent, relative "
-     "to C01Chain's BlockOK/OpsOK); for the entropy-coded bits of quality 4-9 and for quality 0/1/10/11 it is judged on the "
+     "level for quality 2-3 and (given a well-formed MetaBlockSplit) 4-9 (BV.Props.C03Catable: catable_member_from_init, "
+     "catable_*_bits_position_independent, relative to C01Chain's BlockOK/OpsOK); for quality 0/1/10/11 it is judged on the "
      "real code by two independent decoders (brotli-decompressor, libbrotlidec 1.0.9) and, for the commands of quality "
      "2-9, by the foreign-history replay of stage hasher-catable")
     if a.startswith("'decodes to the concatenation' additionally relies") else a
